@@ -328,6 +328,40 @@ func containerChanBody(kind int, pending bool) func() {
 
 func init() {
 	eng.Register(&eng.Scenario{
+		Name: "pcontainer-aba", Props: []string{"C11"}, ObsNames: stdObs,
+		Doc:   "PromiseContainer holding unresolved p1: an awaiter (Await / AwaitWithErrCh / AwaitWithCancelCh, choice) is blocked; another thread does SetPromise(p2); SetPromise(p1) and only then resolves p1: the awaiter must return p1's result and nothing else",
+		Quick: eng.Bounds{PB: 3}, Thorough: eng.Bounds{PB: 5},
+		Body: func() {
+			bg := context.Background()
+			c := promise.NewPromiseContainer[int]()
+			p1, p2 := promise.NewPromise[int](), promise.NewPromise[int]()
+			vsched.CtrSet(c11Set0+1, 1)
+			c.SetPromise(p1)
+			kind := vsched.Choose(3)
+			code := []int{0, 2}[vsched.Choose(2)]
+			errCh := make(chan error, 1)
+			cancelCh := make(chan struct{})
+			T("A", func() {
+				v, err := doAwait(c, kind, bg, errCh, cancelCh)
+				checkAwait(0, kind, v, err, true)
+				if v != 10+code || errCode(err) != int64(code) {
+					fail("C11.wrong-result", "container await returned (%d,%v) but the current promise was resolved with (%d, code %d)", v, err, 10+code, code)
+				}
+			})
+			T("S", func() {
+				vsched.CtrSet(c11Set0+2, 1)
+				c.SetPromise(p2)
+				c.SetPromise(p1)
+				vsched.Point()
+				p1.SetResult(10+code, resErrs[code])
+			})
+			vsched.Settle()
+			if n := vsched.CountParked(aLabels[kind]); n > 0 {
+				fail("C11.awaiter-stuck", "container awaiter still parked although the current promise has a result")
+			}
+		},
+	})
+	eng.Register(&eng.Scenario{
 		Name: "promise-set3", Props: []string{"C11"}, MustFinish: true, ObsNames: stdObs,
 		Doc:   "Promise: 3 concurrent SetResult calls (each result chosen from {(v,nil),(v,E),(v,Canceled),(v,DeadlineExceeded)}) and 2 plain awaiters; exactly one winner, awaiters see the winner's pair",
 		Quick: eng.Bounds{PB: 2}, Thorough: eng.Bounds{PB: 4},
